@@ -300,7 +300,7 @@ func vfC51RouteClusters(routes []vfC51Route) map[string]bool {
 type vfC51Event struct {
 	kind     string // state select commit iclose hold release
 	children map[string]bool
-	xdsOK    map[string]bool // clusters with a usable entry in the XDSConfig attached to the state
+	xdsOK    map[string]bool   // clusters with a usable entry in the XDSConfig attached to the state
 	xdsErr   map[string]string // clusters whose entry in that XDSConfig carries a resource error (reported by the xDS client)
 	marker   int
 	rpc      int
